@@ -50,7 +50,9 @@ Definition st_eqb (a b : st) : bool :=
   Bool.eqb (route_matched a) (route_matched b) && Nat.eqb (rcursor a) (rcursor b) && Nat.eqb (scursor a) (scursor b) &&
   list_eqb Nat.eqb (fcalls a) (fcalls b) && list_eqb Nat.eqb (scalls a) (scalls b) && list_eqb phase_eqb (delayed a) (delayed b) &&
   Bool.eqb (reuse a) (reuse b) && Bool.eqb (gave a) (gave b) && Bool.eqb (abandoned a) (abandoned b) && Nat.eqb (nfin a) (nfin b) && Z.eqb (rc a) (rc b) && Bool.eqb (global_ever a) (global_ever b) && Bool.eqb (x_loop a) (x_loop b) &&
-  Bool.eqb (x_upf a) (x_upf b) && Bool.eqb (x_nog a) (x_nog b) && opt_eqb Z.eqb (status_var a) (status_var b) && Bool.eqb (x_stale a) (x_stale b).
+  Bool.eqb (x_upf a) (x_upf b) && Bool.eqb (x_nog a) (x_nog b) && opt_eqb Z.eqb (status_var a) (status_var b) && Bool.eqb (x_stale a) (x_stale b) &&
+  Bool.eqb (rsp_filtered a) (rsp_filtered b) && Bool.eqb (upreq_filtered a) (upreq_filtered b) && Bool.eqb (x_unfilt a) (x_unfilt b) &&
+  Bool.eqb (late_started a) (late_started b).
 
 Ltac split_andb H :=
   repeat match type of H with (_ && _) = true => let H2 := fresh "E" in apply andb_prop in H as [H H2] end.
